@@ -95,6 +95,23 @@ class TB:
 
 
 # ---------------------------------------------------------------- values
+class Xb:
+    """one bit that is the exclusive-or of two input bits (`a ^ b`, the usual way to write "differs in")"""
+    __slots__ = ("a", "b")
+
+    def __init__(self, a, b):
+        self.a, self.b = (a, b) if a <= b else (b, a)
+
+    def __eq__(self, o):
+        return isinstance(o, Xb) and (self.a, self.b) == (o.a, o.b)
+
+    def __hash__(self):
+        return hash(("xb", self.a, self.b))
+
+    def __repr__(self):
+        return "%s[%d]^%s[%d]" % (self.a[0], self.a[1], self.b[0], self.b[1])
+
+
 class Bits:
     __slots__ = ("w", "b")
 
@@ -138,6 +155,10 @@ class Bits:
                 continue
             if x is None:
                 parts.append("b%d=?" % i)
+                i += 1
+                continue
+            if isinstance(x, Xb):
+                parts.append("b%d=%r" % (i, x))
                 i += 1
                 continue
             root, j = x
@@ -385,6 +406,10 @@ def mkcmp(op, a, b):
         while w > 1 and a.b[w - 1] == 0 and b.b[w - 1] == 0:
             w -= 1
         a, b = a.resize(w), b.resize(w)
+        # `(x ^ y) & M == 0` says the same as `x & M == y & M`: compare the two sides bit for bit
+        if b.is_const() and b.value() == 0 and op in ("Eq", "Ne") and any(isinstance(x, Xb) for x in a.b) and all(x == 0 or isinstance(x, Xb) for x in a.b) \
+                and len({(x.a[0], x.b[0]) for x in a.b if x != 0}) == 1:
+            return mkcmp(op, Bits(w, [x.a if x != 0 else 0 for x in a.b]), Bits(w, [x.b if x != 0 else 0 for x in a.b]))
         # x & mask != 0 with right shifts: normalise shifted compare against 0
         if b.is_const() and b.value() == 0 and op in ("Eq", "Ne"):
             # drop zero bits entirely: only the set of input bits matters
@@ -723,6 +748,9 @@ class Evaluator:
         if k in ("Var", "Upvar"):
             if n["id"] in env:
                 return env[n["id"]]
+            if n["name"] in getattr(self, "by_name", ()):
+                # a captured variable of a closure evaluated on its own, given by the rule
+                return self.by_name[n["name"]]
             return Sym("var:" + n["name"])
         if k in ("Deref", "Borrow", "RawBorrow"):
             return self.eval(tb, n["e"], env, depth)
@@ -1367,6 +1395,8 @@ class Evaluator:
             return x
         if x in (0, 1) and y in (0, 1):
             return x ^ y
+        if isinstance(x, tuple) and isinstance(y, tuple):
+            return 0 if x == y else Xb(x, y)
         return None
 
     # --- calls
